@@ -38,6 +38,15 @@ class Ctx:
 
 
 def make_ctx(sess):
+    # the stop marker is whatever the module says it is (a harmless change of its spelling is not a violation; a marker
+    # that a DATA message can equal is one -- the run loops compare messages with it)
+    global STOP
+    import ast as _ast
+    mod = sess.prog.modules["auditok.workers"]
+    try:
+        STOP = _ast.literal_eval(mod.consts["_STOP_PROCESSING"])
+    except Exception as e:  # noqa
+        raise CheckerError("contract drift: auditok.workers._STOP_PROCESSING is not a literal (%s)" % e)
     return Ctx(sess)
 
 
@@ -97,6 +106,14 @@ def setup(sess, inline=()):
     eng.ctor_contracts = dict(eng.ctor_contracts)
     eng.ctor_contracts["timedelta"] = lambda e, a, k: Opq(tag="time")
     eng.lib["method:opaque.strftime"] = lambda e, o, a, k: Opq(tag="str")
+    def deque_ctor(e, a, k):
+        # a deque used as a list that only grows; a bounded one silently forgets its oldest items
+        ml = k.get("maxlen", a[1] if len(a) > 1 else None)
+        e.prove("C12:a-container-of-detections-or-blocks-keeps-every-item(no-maxlen)", ml is None, props=("C12", "C13", "C14", "C15"))
+        if a and not (isinstance(a[0], Seq) and isinstance(a[0].n, int) and a[0].n == 0):
+            raise Unsupported("deque(iterable)")
+        return seq_lit("list", [], new_aid())
+    eng.lib["collections.deque"] = deque_ctor
     nt = collections.namedtuple("_Detection", "id start end duration")
     eng.lib["collections.namedtuple"] = lambda e, a, k: LibCallable("_Detection", lambda e2, a2, k2: nt(*a2, **k2))
     return eng
@@ -113,6 +130,12 @@ def worker_obj(eng, cls, fields=None):
     st = eng.st
     q = st.new_obj("IQueue", {})
     f = {"_inbox": q, "_timeout": Fl(Real("timeout")), "_logger": None}
+    if cls in ("StreamSaverWorker", "AudioEventsJoinerWorker", "AudioDataSaverWorker"):
+        # what AudioDataSaverWorker.__init__ establishes (unit saver_init): the audio format of the output file
+        sr_, sw_, ch_ = Int(fresh_name("out.sr")), Int(fresh_name("out.sw")), Int(fresh_name("out.ch"))
+        eng.assume(And(sr_ >= 1, Or(sw_ == 1, sw_ == 2, sw_ == 4), ch_ >= 1))
+        f.update({"_sampling_rate": sr_, "_sample_width": sw_, "_channels": ch_, "_output_filename": Opq(tag="str"),
+                  "_tmp_output_filename": Opq(tag="str"), "_export_format": Opq(tag="str"), "_exported": False})
     f.update(fields or {})
     return st.new_obj(cls, f), q
 
